@@ -248,32 +248,36 @@ def run(P, R):
     si = P.unit('ApplicationStartJobs.distribute_to_single_instance')
     fm = factmap(si)
     gi = [c for c in own_nodes(si.node) if isinstance(c, ast.Call) and call_text(c) == 'get_supvisors_instance']
-    defs = {a.targets[0].id: ast.unparse(a.value) for a in own_nodes(si.node) if isinstance(a, ast.Assign)
-            and isinstance(a.targets[0], ast.Name)}
-    upd = [c for c in own_nodes(si.node) if isinstance(c, ast.Call) and call_text(c) == 'command.update_identifier']
-    ok = len(gi) == 1 and defs.get(ast.unparse(gi[0].args[2])) == 'self.application.possible_identifiers()' and \
-        defs.get(ast.unparse(gi[0].args[3])) == 'self.application.get_start_sequence_expected_load()' and \
-        len(upd) == 1 and ast.unparse(upd[0].args[0]) == 'identifier' and \
+    # closed forms (sa.defuse): what is compared does not depend on the names of locals and comprehension binders
+    PJ = 'self.planned_jobs.values()'
+    ALL_CMDS = '[each(each(%s)) for _ in %s for _ in each(%s)]' % (PJ, PJ, PJ)
+    upd = [c for c in own_nodes(si.node) if isinstance(c, ast.Call) and isinstance(c.func, ast.Attribute)
+           and c.func.attr == 'update_identifier']
+    sel = closed_text(si, gi[0]) if len(gi) == 1 else '?'
+    ok = len(gi) == 1 and closed_text(si, gi[0].args[2]) == 'self.application.possible_identifiers()' and \
+        closed_text(si, gi[0].args[3]) == 'self.application.get_start_sequence_expected_load()' and \
+        len(upd) == 1 and closed_text(si, upd[0].args[0]) == sel and \
+        closed_text(si, upd[0].func.value) == 'each(%s)' % ALL_CMDS and \
         any(isinstance(a, ast.Assign) and ast.unparse(a.targets[0]) == 'self.identifiers' and
-            ast.unparse(a.value) == '[identifier]' for a in own_nodes(si.node)) and \
-        'for process in sequence' in defs.get('commands', '') and 'self.planned_jobs.values()' in defs.get('commands', '')
+            closed_text(si, a.value) == '[%s]' % sel for a in own_nodes(si.node))
     R.check(r4, ok, 'SINGLE_INSTANCE: one instance able to carry the whole sequence, given to all commands',
             'distribution|single-instance', si.loc(), 'distribute_to_single_instance does not choose one identifier '
             'among application.possible_identifiers() for the whole start-sequence load and give it to every command')
     sn = P.unit('ApplicationStartJobs.distribute_to_single_node')
     gn = [c for c in own_nodes(sn.node) if isinstance(c, ast.Call) and call_text(c) == 'get_node']
-    defs = {}
-    for a in own_nodes(sn.node):
-        if isinstance(a, ast.Assign):
-            defs.setdefault(ast.unparse(a.targets[0]), []).append(ast.unparse(a.value))
-    ok = len(gn) == 1 and defs.get(ast.unparse(gn[0].args[2])) == ['self.application.possible_node_identifiers()'] and \
-        defs.get(ast.unparse(gn[0].args[3])) == ['self.application.get_start_sequence_expected_load()'] and \
-        defs.get('node_identifiers') == ['list(self.supvisors.mapper.nodes.get(machine_id, []))'] and \
-        defs.get('self.identifiers') == ['[identifier for identifier in identifiers if identifier in node_identifiers]']
+    asg = [closed_text(sn, a.value) for a in own_nodes(sn.node) if isinstance(a, ast.Assign)
+           and ast.unparse(a.targets[0]) == 'self.identifiers']
+    node = closed_text(sn, gn[0]) if len(gn) == 1 else '?'
+    CAND = 'self.application.possible_node_identifiers()'
+    ok = len(gn) == 1 and closed_text(sn, gn[0].args[2]) == CAND and \
+        closed_text(sn, gn[0].args[3]) == 'self.application.get_start_sequence_expected_load()' and \
+        asg == ['[each(%s) for _ in %s if each(%s) in list(self.supvisors.mapper.nodes.get(%s, []))]' %
+                (CAND, CAND, CAND, node)]
+    defs = {'self.identifiers': asg}
     R.check(r4, ok, 'SINGLE_NODE: the selection is the application candidates that belong to the chosen node',
             'distribution|single-node', sn.loc(), 'distribute_to_single_node does not restrict self.identifiers to the '
             'application node candidates of the node chosen by get_node for the whole load (%s)' %
-            {k: defs.get(k) for k in ('node_identifiers', 'self.identifiers')})
+            {k: defs.get(k) for k in ('self.identifiers',)})
     shared.application_candidates(P, R, r4)
     shared.enum_classes(P, R, r4, only=('starting_strategy', 'distribution'))
     R.assume('Optimality over numeric load tables is NOT decided; only the ordering structure of each strategy.')
